@@ -522,7 +522,7 @@ pub fn run(run: &Run) {
     run.set_rule("lookup", "N real nodes (2..=24, thorough ..=60) in mesh/ring/line/star/tree/two-cliques/G(n,p), random ids, key random / a node's key / near the requester, K∈{0,1,2,3,8,16,20}, per-peer faults (silent, dead, slow below/above the timeout), lying stub peers naming unknown, real, requester, self ids and forged distances; non-trivial = ≥2 query rounds or a faulty/lying peer; distinct by case hash");
     run.max_shrink.store(150, std::sync::atomic::Ordering::Relaxed);
     let sh = shards_for(run.tier);
-    run.prop_f("lookup", run.tier.pick(4800, 48000), sh, || case(24), run_case);
+    run.prop_f("lookup", run.tier.pick(8000, 64000), sh, || case(24), run_case);
     if run.tier == Tier::Thorough {
         run.prop_f("lookup", 300, sh, || case(60), run_case);
     }
